@@ -1,6 +1,8 @@
 SPECIFICATION GSpec
 CONSTANTS
+  MinEvents = 1
   MaxEvents = 2
-  Rich = FALSE
+  Rich = "plain"
+  FaultKinds = {"none", "malformed", "writefail", "writefailp", "badlogin", "badpid"}
 INVARIANTS ModelOK Emit
 CHECK_DEADLOCK FALSE
